@@ -173,16 +173,16 @@ func runOneMatrix(c mxCase, base string, idx int) (sx.V, sx.V) {
 		var launcher *plugin.Client
 		cfg := mk(c.Mux, false)
 		if c.MuxLine == 3 {
-			cfg.Cmd = exec.Command("/bin/sh", "-c", `echo "$LINE"; exec sleep 30`)
+			cfg.Cmd = exec.Command("/bin/sh", "-c", `trap "" TERM; echo "$LINE"; exec sleep 30`)
 			cfg.Cmd.Env = []string{"LINE=" + fmt.Sprintf("1|1|unix|%s", filepath.Join(pdir, "nothing"))}
 		}
 		if c.MuxLine == 4 {
-			cfg.Cmd = exec.Command("/bin/sh", "-c", `echo "$LINE"; exec sleep 30`)
+			cfg.Cmd = exec.Command("/bin/sh", "-c", `trap "" TERM; echo "$LINE"; exec sleep 30`)
 			cfg.Cmd.Env = []string{"LINE=" + fmt.Sprintf("1|1|unix|%s|%s", filepath.Join(pdir, "nothing"), proto)}
 		}
 		if c.MuxLine == 2 {
 			line := fmt.Sprintf("1|1|unix|%s|%s||false", filepath.Join(pdir, "nothing"), proto)
-			cfg.Cmd = exec.Command("/bin/sh", "-c", `echo "$LINE"; exec sleep 30`)
+			cfg.Cmd = exec.Command("/bin/sh", "-c", `trap "" TERM; echo "$LINE"; exec sleep 30`)
 			cfg.Cmd.Env = []string{"LINE=" + line}
 		}
 		switch c.Launch {
